@@ -220,6 +220,7 @@ let answer (s : state) (toks : Stdlib.String.t list) : Stdlib.String.t =
        pats = patterns separated by ';' (is_case=True, is_re=False) *)
     let pats = List.map str_of_tok (String.split_on_char ';' pats) in
     let pat = pat_sel (absolute_b true false) (matches_b true false) pats in
+    let dpat = pat_any_of (matches_b true false) pats in
     let root_of_tok t =
       let rest = String.sub t 1 (String.length t - 1) in
       (match t.[0] with
@@ -231,15 +232,15 @@ let answer (s : state) (toks : Stdlib.String.t list) : Stdlib.String.t =
        | _ -> failwith ("bad root " ^ t)) in
     let roots = List.map root_of_tok roots and r = bool_of_tok r in
     (match fn with
-     | "hpins" -> shrefs (get_hpins_roots s r pat roots)
-     | "hports" -> shrefs (get_hports_roots s r pat roots)
+     | "hpins" -> shrefs (get_hpins_roots s r pat dpat roots)
+     | "hports" -> shrefs (get_hports_roots s r pat dpat roots)
      | _ ->
        (match usum_of s (id_of_tok n) with
         | None -> "FUEL"
         | Some u ->
           (match fn with
-           | "hwires" -> shrefs (get_hwires_roots s (sel_of_tok x) r pat u roots)
-           | "hcables" -> shrefs (get_hcables_roots s (sel_of_tok x) r pat u roots)
+           | "hwires" -> shrefs (get_hwires_roots s (sel_of_tok x) r pat dpat u roots)
+           | "hcables" -> shrefs (get_hcables_roots s (sel_of_tok x) r pat dpat u roots)
            | _ -> failwith ("bad roots query " ^ fn))))
   | [ "ordered"; fn; r; pats; h ] ->
     (* one instance reference through the name map: the answer IN YIELD ORDER (Hier/TraceRoots.v, get_ordered) *)
